@@ -841,6 +841,9 @@ def run_sess(aa, inp):
             observe("defaults_ds2", B2, los, objs, wts=[B2.w_tilde, wA], uses=(True,), defaults="factory")
             observe("defaults_class", A, los, objs, wts=[wA], uses=(False, True) if has_mapper else (False,), defaults="class")
             if has_mapper: observe("defaults_class_ds2", B2, los, objs, wts=[B2.w_tilde, wA], uses=(True,), defaults="class")
+            # Imaging.apply_over_sampling() without argument: the shared default OverSamplingDataset() of its signature
+            A6 = A.apply_over_sampling()
+            observe("defaults_over_sampling", A6, los, objs, wts=[A6.w_tilde, wA], uses=(True,), defaults="factory")
             observe("defaults_again", A, los, objs, wts=[wA], uses=(True,), defaults="factory")
         elif step == "oversampling":
             A4 = A.apply_over_sampling(over_sampling=aa.OverSamplingDataset(uniform=aa.OverSamplingUniform(sub_size=2),
